@@ -252,6 +252,7 @@ def run(case):
     snap0 = sim.fs.snapshot()
     del sim.fs.log[:]
     versions = []
+    saved_by = []           # length of the op log when version i was seen
     marks_model = []        # (log index, number of committed txns, model)
 
     def note_index():
@@ -259,6 +260,7 @@ def run(case):
             b = sim.fs.read_bytes(IDX)
             if not versions or versions[-1] != b:
                 versions.append(b)
+                saved_by.append(len(sim.fs.log))
 
     note_index()
     viol = []
@@ -329,8 +331,12 @@ def run(case):
                     if log[k - 1][0] in ('write', 'truncate', 'rename')
                     and (log[k - 1][0] == 'rename'
                          or log[k - 1][1] == data_ino)]
-            ks = sorted(r.sample(cand, min(case.get('ncrash', 3),
-                                           len(cand))))
+            ks = set(r.sample(cand, min(case.get('ncrash', 3), len(cand))))
+            # always: right after the pack's swap, before it saved the new
+            # index -- the pre-pack index then lies beside the packed file
+            ks.update(k for k in cand if log[k - 1][0] == 'rename'
+                      and log[k - 1][2] == PATH)
+            ks = sorted(ks)
             for k in ks:
                 rep.advance(k)
                 torn = None
@@ -365,7 +371,11 @@ def run(case):
                                        'noindex ' + label, pm)
                 if ref is None:
                     continue
-                for vl, b in index_variants(versions, r, 'quick')[1:]:
+                # only index versions saved at an *earlier* moment than
+                # the crash (an index newer than the data file cannot
+                # exist: it is written after the data it describes)
+                earlier = [v for v, at in zip(versions, saved_by) if at <= k]
+                for vl, b in index_variants(earlier, r, 'quick')[1:]:
                     if vl.startswith('cut') and r.random() < 0.7:
                         continue
                     op_.open_variant(with_index(snap, b),
